@@ -21,7 +21,7 @@ from engines.common import flatten_records, static_chains
 
 PROP = 'C07'
 E = mon.E
-KINDS = ['preempt', 'user_abort', 'reenter', 'gc']
+KINDS = ['preempt', 'user_abort', 'reenter', 'gc', 'burst']
 RUNS_PER_UNIVERSE = 8
 
 REC = None      # the active Recorder (or None)
@@ -859,7 +859,8 @@ def coverage(agg):
         'long_input_calls(>=300 chars)': c.get('long_calls', 0),
         'calls_on_shipped_meta_parser': c.get('calls_on_shipped_meta_parser', 0),
         'memoless_model_budget_exceeded(exponential_families)': c.get('memoless_budget_exceeded', 0),
-        'faults_fired_by_kind': {k: c.get(k, 0) for k in ('preempt', 'user_abort', 'reenter', 'gc')},
+        'faults_fired_by_kind': {k: c.get(k, 0) for k in ('preempt', 'user_abort', 'reenter', 'gc', 'burst')},
+        'calls_in_bursts(long-lived modules)': c.get('calls_in_bursts', 0),
         'configurations': {'S0_single_call_baseline_runs': agg['baseline_runs'], 'S0_calls': agg['baseline_calls'],
                            'S1_nested_calls': c.get('reenter', 0), 'S2_preemptions': c.get('preempt', 0),
                            'S3_aborted_calls': c.get('user_abort', 0)},
